@@ -37,7 +37,7 @@ theorem C03_roundtrip_kind (k : FKind) (fv : FVal) (h : representable k fv = tru
       cases v <;> simp [representable, repVal] at h
       rename_i b
       cases ptr <;> cases named <;> cases b <;>
-        simp [roundTrip, valueOf, store, storeVal, load, setField, setPP, setPtr, setVal, hasPPArm, fallbackVal,
+        simp_all [roundTrip, valueOf, store, storeVal, load, setField, setPP, setPtr, setVal, hasPPArm, fallbackVal,
           FKind.zero, Base.zero, Base.ty, Val.ty]
     | int w =>
       cases v <;> simp [representable, repVal] at h
@@ -74,7 +74,7 @@ theorem C03_roundtrip_kind (k : FKind) (fv : FVal) (h : representable k fv = tru
       | true =>
         cases v <;> simp [representable, repVal] at h
         rename_i t b
-        obtain ⟨rfl, hb⟩ := h
+        obtain ⟨⟨rfl, hb⟩, hz⟩ := h
         have hn := f32exact_not_nan b hb
         cases ptr <;> cases named <;>
           simp_all [roundTrip, valueOf, store, storeVal, load, setField, setPP, setPtr, setVal, hasPPArm, fallbackVal,
@@ -82,7 +82,7 @@ theorem C03_roundtrip_kind (k : FKind) (fv : FVal) (h : representable k fv = tru
       | false =>
         cases v <;> simp [representable, repVal] at h
         rename_i t b
-        obtain ⟨rfl, hb⟩ := h
+        obtain ⟨⟨rfl, hb⟩, hz⟩ := h
         cases ptr <;> cases named <;>
           simp_all [roundTrip, valueOf, store, storeVal, load, setField, setPP, setPtr, setVal, hasPPArm, fallbackVal,
             setFloat, FKind.zero, Base.zero, Base.ty, Val.ty]
@@ -93,13 +93,14 @@ theorem C03_roundtrip_kind (k : FKind) (fv : FVal) (h : representable k fv = tru
           FKind.zero, Base.zero, Base.ty, Val.ty]
     | bytes =>
       cases v <;> simp [representable, repVal] at h
-      cases ptr <;> cases named <;>
-        simp [roundTrip, valueOf, store, storeVal, load, setField, setPP, setPtr, setVal, hasPPArm, fallbackVal,
+      rename_i s
+      cases s <;> cases ptr <;> cases named <;>
+        simp_all [roundTrip, valueOf, store, storeVal, load, setField, setPP, setPtr, setVal, hasPPArm, fallbackVal,
           FKind.zero, Base.zero, Base.ty, Val.ty]
     | time =>
       cases v <;> simp [representable, repVal] at h
       cases ptr <;> cases named <;>
-        simp [roundTrip, valueOf, store, storeVal, load, setField, setPP, setPtr, setVal, hasPPArm, fallbackVal,
+        simp_all [roundTrip, valueOf, store, storeVal, load, setField, setPP, setPtr, setVal, hasPPArm, fallbackVal,
           FKind.zero, Base.zero, Base.ty, Val.ty, convertTo]
 
 /-- what `SetInt`/`SetUint` leave in an N-bit field always fits N bits, whatever 64-bit value arrives, and is the
@@ -165,6 +166,22 @@ theorem C03_backfill_lastid_partial (m : Int) (hm : 0 ≤ m) (ks : List Key) (b 
     ids 1,100,101 but the records in memory end up with 100,100,101 — record 0 carries the key of record 1's row. -/
 theorem C03_backfill_mixed_counterexample :
     createSlice false 0 [0, 100, 0] = ([100, 100, 101], [1, 100, 101], 101) ∧ Mixed [0, 100, 0] := by
+  decide
+
+/-- CREATE FROM A SLICE OF MAPS, no RETURNING: every map receives the key of its own row (rows get m+1 … m+n) and
+    the caller's slice keeps its length — the negation of finding F18's pattern (RETURNING-capable dialector) -/
+theorem C03_maps_backfill_partial (returning ptrDest : Bool) (m : Int) (n : Nat) (h : returning = false) :
+    createMaps returning ptrDest m n = some ((up (m + 1) n).map some, n) := by
+  subst h
+  simp only [createMaps, backfillMaps, Bool.false_eq_true, if_false, if_true, List.length_replicate]
+  rw [backfillMaps_go_present]
+  have e : m + (n : Int) - ((n : Int) - 1) = m + 1 := by omega
+  rw [e]
+
+/-- FINDING F18 (kernel-checked witness): with RETURNING, `Create(&[]map{…}{{…},{…}})` leaves both maps without
+    a key and the caller's slice with 4 elements; by value the call fails -/
+theorem C03_maps_returning_counterexample :
+    createMaps true true 0 2 = some ([none, none], 4) ∧ createMaps true false 0 2 = none := by
   decide
 
 /-- dialects whose LastInsertId is the FIRST generated id (forward loop, create.go:170): all-zero batches -/
